@@ -566,10 +566,13 @@ def run(tier, seed, work):
     rep.extraction = {"rules_fired": jobs[0].rules.summary(), "body_sha256_16": {k: v for j in jobs for k, v in j.hashes.items()},
                       "dropped": ["constructors (members are symbolic reals shared by the two classes of a pair; factor_xi computed by each class's initializeGeometry)"]}
     rep.trusted = ["double treated as mathematical real", "CBMC 6.11 + z3 5.1", "extractor rules",
-                   "axioms: exp(x) * exp(-x) == 1; pow(x, -1) == 1 / x; pow(x, n) for other integral n, sin, cos, tanh, atan, sqrt uninterpreted",
-                   "proof rule: central differences are exact for polynomials of degree <= 2; chain rule through (sin theta, cos theta)"]
+                   "axioms (instantiated at the calls made): exp(x) * exp(-x) == 1; pow(x, -1) == 1 / x; sqrt(x)^2 == x and sqrt(x) >= 0 for x >= 0; "
+                   "pow(x, n) with an integral literal n >= 0 is exact (repeated multiplication); sin, cos, tanh, atan otherwise uninterpreted",
+                   "proof rules: central differences are exact for polynomials of degree <= 2; chain rule through (sin theta, cos theta); implicit "
+                   "differentiation of a polynomial relation satisfied by the mapping (Czarny dFx_*)",
+                   "class names follow <Problem>[_Boundary|_<Profile>]_<Geometry> / <Profile>Coefficients (selection tables; checked against the enums)"]
     rep.assumptions = ["Rmax > 0", "alpha(r) != 0 in the gyro obligation", "the sin_theta / cos_theta arguments are arbitrary reals (stronger than needed)",
-                       "NOT decided: source terms, Czarny / Culham Jacobians"]
+                       "NOT decided: source terms, Czarny dFy_dr / dFy_dt, Culham Jacobians, alpha > 0"]
     return rep.finish("other", EXPLANATION, "cbmc unit.c --function harness --z3 [--property P --slice-formula]")
 
 
